@@ -802,7 +802,7 @@ impl From<&Time> for Time {
 impl From<DateTime> for Time {
     fn from(value: DateTime) -> Self {
         Self {
-            nanoseconds: (value.as_nanos() % NANOS_PER_DAY as i128) as u64,
+            nanoseconds: value.as_nanos().rem_euclid(NANOS_PER_DAY as i128) as u64,
             offset: value.get_offset(),
         }
     }
@@ -810,7 +810,7 @@ impl From<DateTime> for Time {
 impl From<&DateTime> for Time {
     fn from(value: &DateTime) -> Self {
         Self {
-            nanoseconds: (value.as_nanos() % NANOS_PER_DAY as i128) as u64,
+            nanoseconds: value.as_nanos().rem_euclid(NANOS_PER_DAY as i128) as u64,
             offset: value.get_offset(),
         }
     }
@@ -852,7 +852,7 @@ impl Add for Time {
 
     fn add(self, rhs: Self) -> Self::Output {
         Time {
-            nanoseconds: self.nanoseconds + rhs.nanoseconds,
+            nanoseconds: (self.nanoseconds + rhs.nanoseconds) % NANOS_PER_DAY,
             offset: self.offset,
         }
     }
@@ -868,7 +868,7 @@ impl Sub for Time {
 
     fn sub(self, rhs: Self) -> Self::Output {
         Time {
-            nanoseconds: self.nanoseconds - rhs.nanoseconds,
+            nanoseconds: (self.nanoseconds + NANOS_PER_DAY - rhs.nanoseconds) % NANOS_PER_DAY,
             offset: self.offset,
         }
     }
@@ -883,8 +883,11 @@ impl Add<Duration> for Time {
     type Output = Self;
 
     fn add(self, rhs: Duration) -> Self::Output {
-        let nanos = self.as_nanos() + rhs.as_nanos() as u64;
-        Self::from_nanos(nanos).unwrap()
+        let rhs_nanos = (rhs.as_nanos() % NANOS_PER_DAY as u128) as u64;
+        Self {
+            nanoseconds: (self.nanoseconds + rhs_nanos) % NANOS_PER_DAY,
+            offset: self.offset,
+        }
     }
 }
 impl AddAssign<Duration> for Time {
@@ -897,8 +900,11 @@ impl Sub<Duration> for Time {
     type Output = Self;
 
     fn sub(self, rhs: Duration) -> Self::Output {
-        let nanos = self.as_nanos() - rhs.as_nanos() as u64;
-        Self::from_nanos(nanos).unwrap()
+        let rhs_nanos = (rhs.as_nanos() % NANOS_PER_DAY as u128) as u64;
+        Self {
+            nanoseconds: (self.nanoseconds + NANOS_PER_DAY - rhs_nanos) % NANOS_PER_DAY,
+            offset: self.offset,
+        }
     }
 }
 impl SubAssign<Duration> for Time {
